@@ -494,7 +494,7 @@ func c05Regex() []string {
 func init() {
 	run.Register(&run.Prop{
 		ID: "C05", Level: "exploration", MinNontrivial: 2000,
-		Rule:        "a case is (program, aliased input shape or explicit input, abandon point). The real library runs the compiled program four times (same input object twice, an interleaved run on another input, a fresh equal copy, the same object again); after EVERY Next call the input, the variable value, every value emitted so far and every literal container embedded in the compiled code (read through the verif hook) are re-serialised strictly — Go representation, shared structure and the hidden [len:cap] tail of every slice (sentinel-filled) included — and compared with their snapshot; every rerun must give the same canonical sequence and the same Marshal bytes. Programs: hand-written update/delete/add/sort/slice programs over the aliased shapes, a sweep of every builtin name/arity reported by `builtins` applied to the aliased input and to each aliased sub-value, PRNG-generated update-heavy programs, the library-level corpus. Non-trivial = distinct cases that emitted at least one value.",
+		Rule:        "a case is (program, aliased input shape or explicit input, abandon point). The real library runs the compiled program four times (same input object twice, an interleaved run on another input, a fresh equal copy, the same object again); after EVERY Next call the input, the variable value, every value emitted so far and every literal container embedded in the compiled code (read through the verif hook) are re-serialised strictly — Go representation, shared structure and the hidden [len:cap] tail of every slice (sentinel-filled) included — and compared with their snapshot; every rerun must give the same canonical sequence and the same Marshal bytes. Programs: hand-written update/delete/add/sort/slice programs over the aliased shapes, a sweep of every builtin name/arity reported by `builtins` applied to the aliased input and to each aliased sub-value, PRNG-generated update-heavy programs, the library-level corpus. Non-trivial = distinct cases that emitted at least one value. Also: programs that put containers of 3..300 members into error messages, previews and texts (reruns agree to the byte), and kind c05.values: the slice of 1..5 variable values the caller spreads into Run, with four sentinels behind its length, is compared after every Next of four runs.",
 		Assumptions: []string{"a write of an identical value is not a modification (it is a data race when shared: C06)", "programs using now/input/local time are excluded syntactically, as the statement allows"},
 		Body: func(c *run.Ctx) {
 			r := c.Rand("c05")
